@@ -384,6 +384,30 @@ func cmdCheck(args []string) {
 		os.MkdirAll(verifDir+"/ledger", 0o755)
 		os.WriteFile(fmt.Sprintf("%s/ledger/%s.json", verifDir, *prop), data, 0o644)
 	}
+	// thorough tier: the must-fail corpus of this property — every deliberate property-breaking patch must be reported
+	mutants := map[string]interface{}{}
+	if thorough && os.Getenv("GOVC_REPO") == "" && os.Getenv("GOVC_NOMUTANTS") == "" {
+		if _, err := os.Stat(fmt.Sprintf("%s/selftest/mutants/%s", verifDir, *prop)); err == nil {
+			cmd := exec.Command(verifDir+"/tools/mutants.sh", *prop)
+			out, _ := cmd.CombinedOutput()
+			killed, survived, stale := 0, []string{}, 0
+			for _, ln := range strings.Split(string(out), "\n") {
+				switch {
+				case strings.HasPrefix(ln, "KILLED"):
+					killed++
+				case strings.HasPrefix(ln, "SURVIVED"):
+					survived = append(survived, strings.TrimSpace(strings.TrimPrefix(ln, "SURVIVED")))
+				case strings.HasPrefix(ln, "STALE"), strings.Contains(ln, "DOES NOT"):
+					stale++
+				}
+			}
+			mutants = map[string]interface{}{"killed": killed, "survived": survived, "stale_or_not_building": stale, "total": killed + len(survived) + stale}
+			fmt.Printf("must-fail corpus: %d of %d deliberate breaking changes reported, %d survived, %d stale\n", killed, killed+len(survived)+stale, len(survived), stale)
+			for _, sv := range survived {
+				fmt.Println("MUTANT-SURVIVED:", sv)
+			}
+		}
+	}
 	// evidence
 	level := "proof"
 	trustedBase := []string{"govc VC generator (go/ssa v0.29.0 lowering, Int-with-wrap semantics, component heap)", "SMT solvers z3 5.1.0, cvc5 1.0.3, z3 4.8.12",
@@ -432,6 +456,7 @@ func cmdCheck(args []string) {
 			"undecided_new":            newUndecided,
 			"tool_errors":              toolErrors,
 			"detached_clauses":         detachedClauses,
+			"must_fail_corpus":         mutants,
 			"slow_obligations":         slow,
 			"solver_seconds_by_function": secsByFunc,
 			"samples":                  samples,
